@@ -186,11 +186,18 @@ def rich_library(seed, idx):
         if ret != 'void':
             lines.append(' * Returns: %s%s' % (rng.choice(['', '(transfer full): ', '(nullable): ']), rng.choice(TEXTS)))
         if rng.random() < 0.5:
-            lines.append(' * Since: %s' % rng.choice(['1.0', '2.30']))
+            lines.append(' * Since: %s%s' % (rng.choice(['1.0', '2.30']), rng.choice(['', '', ': since text %s' % rng.choice(TEXTS[:6])])))
         if rng.random() < 0.4:
-            lines.append(' * Deprecated: %s: %s' % (rng.choice(['1.2', '3.0']), rng.choice(TEXTS)))
+            # every combination of the optional parts: version and text, version only, text only
+            form = rng.choice(['both', 'both', 'version', 'text'])
+            if form == 'both':
+                lines.append(' * Deprecated: %s: %s' % (rng.choice(['1.2', '3.0']), rng.choice(TEXTS)))
+            elif form == 'version':
+                lines.append(' * Deprecated: %s' % rng.choice(['1.2', '3.0']))
+            else:
+                lines.append(' * Deprecated: Use %s instead. %s' % (rng.choice(['foo_doc0()', 'something else']), rng.choice(TEXTS[:6])))
         if rng.random() < 0.3:
-            lines.append(' * Stability: %s' % rng.choice(['Stable', 'Unstable', 'Private']))
+            lines.append(' * Stability: %s%s' % (rng.choice(['Stable', 'Unstable', 'Private']), rng.choice(['', '', ': stability text'])))
         lines.append(' */')
         src.add('\n'.join(lines))
         src.add('')
